@@ -262,15 +262,24 @@ Definition run_cbops (nw : Z) (d : Z) (slot : bool) (is_failure : bool) (lost : 
 Definition new_part (id : Z) (x : dev) : part := mkPart id (d_gen_value x) (d_gen_quality x) [] [].
 
 (** PartGenerator.generate_part (+ initialize + add_routing_history(source)) *)
+(** the size of the next item a source generates: 0 a single part, n > 0 a batch of n parts, n < 0 an empty batch; a source
+    with a pattern goes through it cyclically (by the number of items generated so far) *)
+Definition gen_size (x : dev) : Z :=
+  match d_gen_pattern x with
+  | [] => d_gen_batch x
+  | l => nth (Z.to_nat (d_gen_count x) mod length l) l 0
+  end.
+
 Definition generate (w : fw) (d : Z) : fw * item :=
   let x := getd w d in
-  let n := d_gen_batch x in
-  if n <=? 0 then
+  let n := gen_size x in
+  if n =? 0 then
     let id := f_next_id w + 1 in
     (w <| f_next_id := id |>, item_add_hist d (ISingle (new_part id x)))
   else
-    let ids := map (fun i => f_next_id w + 1 + Z.of_nat i) (seq 0 (Z.to_nat n)) in
-    let bid := f_next_id w + n + 1 in
+    let k := Z.max n 0 in
+    let ids := map (fun i => f_next_id w + 1 + Z.of_nat i) (seq 0 (Z.to_nat k)) in
+    let bid := f_next_id w + k + 1 in
     (w <| f_next_id := bid |>, item_add_hist d (IBatch (mkPart bid 0 0 [] []) (map (fun id => new_part id x) ids))).
 
 Definition rec_part (w : fw) (label d : Z) (nw : Z) (it : item) : fw :=
